@@ -805,3 +805,83 @@ Proof.
   - intros i d Hi Hd.
     apply (topo_ok_rank g order [] [] (fun x => conj (fun h => h) (fun h => h)) H2 i d (Hall i Hi) Hd).
 Qed.
+
+(* ------------------------------------------------------------------ positions in a move sequence *)
+(* [before f1 f2 ms]: some move satisfying f1 occurs strictly before some move satisfying f2 ... used through prefixes *)
+Definition occurs (f : move -> bool) (ms : list move) : Prop := count f ms >= 1.
+
+Lemma count_app f a b : count f (a ++ b) = count f a + count f b.
+Proof. unfold count. rewrite filter_app, app_length. auto. Qed.
+
+Lemma occurs_app_l f a b : occurs f a -> occurs f (a ++ b).
+Proof. unfold occurs. rewrite count_app. lia. Qed.
+
+(* a task finishes only after it was taken *)
+Theorem finish_after_take g n sof ms s t : 1 <= n ->
+  run g n sof (init g n) ms = Some s -> occurs (is_finish t) ms -> occurs (is_take t) ms.
+Proof.
+  intros Hn H O. unfold occurs in *.
+  destruct (once_invariant g n sof ms s Hn H t) as [A [B _]]. rewrite A. rewrite B in O.
+  unfold taken, finished_tasks in *. rewrite !occ_app in *. lia.
+Qed.
+
+(* the main thread acknowledges a task only after it finished *)
+Theorem main_after_finish g n sof ms s t : 1 <= n ->
+  run g n sof (init g n) ms = Some s -> occurs (is_main t) ms -> occurs (is_finish t) ms.
+Proof.
+  intros Hn H O. unfold occurs in *.
+  destruct (once_invariant g n sof ms s Hn H t) as [_ [B C]]. rewrite B. rewrite C in O.
+  unfold finished_tasks. rewrite !occ_app. lia.
+Qed.
+
+Lemma run_prefix g n sof ms1 ms2 s : run g n sof (init g n) (ms1 ++ ms2) = Some s ->
+  exists s1, run g n sof (init g n) ms1 = Some s1.
+Proof. rewrite run_app. destruct (run g n sof (init g n) ms1); [eauto|discriminate]. Qed.
+
+Lemma no_interrupt_app a b : no_interrupt (a ++ b) -> no_interrupt a /\ no_interrupt b.
+Proof. unfold no_interrupt. rewrite in_app_iff. tauto. Qed.
+
+(* paths in the dependency graph *)
+Inductive dep_path (g : graph) : nat -> nat -> Prop :=
+| dp_one t d : In d (all_deps (get_task g t)) -> dep_path g t d
+| dp_step t d e : In d (all_deps (get_task g t)) -> dep_path g d e -> dep_path g t e.
+
+(* The order theorem, transitively: when a worker takes task t, every task t depends on directly or indirectly has been
+   taken, finished and acknowledged, in that order, strictly before. *)
+Theorem take_after_transitive_dependencies g n sof : forall t e, dep_path g t e ->
+  forall ms1 md ms2 s, 1 <= n -> no_interrupt ms1 ->
+  run g n sof (init g n) (ms1 ++ MTake t md :: ms2) = Some s ->
+  occurs (is_take e) ms1 /\ occurs (is_finish e) ms1 /\ occurs (is_main e) ms1.
+Proof.
+  induction 1 as [t d Hd | t d e Hd Hp IH]; intros ms1 md ms2 s Hn NI H.
+  - destruct (take_after_dependencies g n sof ms1 t md ms2 s d Hn NI H Hd) as [A B].
+    destruct (run_prefix _ _ _ _ _ _ H) as [s1 E1].
+    assert (Of : occurs (is_finish d) ms1) by (unfold occurs; lia).
+    split; [exact (finish_after_take g n sof ms1 s1 d Hn E1 Of)|split; [exact Of|unfold occurs; lia]].
+  - destruct (take_after_dependencies g n sof ms1 t md ms2 s d Hn NI H Hd) as [A B].
+    destruct (run_prefix _ _ _ _ _ _ H) as [s1 E1].
+    assert (Of : occurs (is_finish d) ms1) by (unfold occurs; lia).
+    pose proof (finish_after_take g n sof ms1 s1 d Hn E1 Of) as Ot.
+    (* locate the take of d inside ms1 *)
+    unfold occurs, count in Ot.
+    destruct (filter (is_take d) ms1) as [|m0 rest] eqn:Ef; [simpl in Ot; lia|].
+    assert (Hin : In m0 (filter (is_take d) ms1)) by (rewrite Ef; left; auto).
+    apply filter_In in Hin as [Hin Hm]. apply in_split in Hin as [pre [post Es]].
+    destruct m0 as [|t0 md0| | | |]; simpl in Hm; try discriminate. apply Nat.eqb_eq in Hm. subst t0.
+    subst ms1. apply no_interrupt_app in NI as [NIpre _].
+    rewrite <- app_assoc in H. simpl in H.
+    destruct (IH pre md0 (post ++ MTake t md :: ms2) s Hn NIpre H) as [X [Y Z]].
+    repeat split; apply occurs_app_l; auto.
+Qed.
+
+(* with a single worker, tasks never overlap: nothing else is taken while a task is running *)
+Theorem single_worker_no_overlap g sof s t md : reachable g 1 sof s -> In (t, md) (running s) ->
+  forall t' md', step g 1 sof s (MTake t' md') = None.
+Proof.
+  intros R Hin t' md'. pose proof (reachable_Inv g 1 sof s (le_n 1) R) as I.
+  pose proof (i_running _ _ _ I) as L. simpl.
+  destruct (poolq s) as [|[t0 j] q]; auto.
+  destruct (running s) as [|x r]; [inversion Hin|]. simpl in L.
+  assert (length r = 0) by lia. destruct r; [|simpl in *; lia]. simpl.
+  rewrite andb_false_r. reflexivity.
+Qed.
